@@ -103,6 +103,13 @@ CHECKS = {
             "not judged. Held on the calls observed.",
             "Trusted: mf/dictmodel.py as a restatement of the documented laws; deep copies taken by the snapshot.",
             "DESIGN.md 2 C18"),
+    "C20": ("relations over API boundary events and real subprocess observations of the CLI (exit status, stdout lines, output "
+            "file bytes) compared with what the public API says for the same files",
+            "Unicode-plane string values cycled through open/load/loads and save/dump/dumps; `mappyfile format` with every option, "
+            "`validate` over valid/invalid (1..300 problems)/unparseable file sets and versions, `schema --version`. Held on the "
+            "cycles and invocations observed.",
+            "Trusted: the API as the reference for what the CLI must do; subprocess exit status and files as observed.",
+            "DESIGN.md 2 C20"),
 }
 
 NOT_APPLICABLE = {}
